@@ -7,7 +7,7 @@ import RosuModel.Model.Proto
 import RosuModel.Model.Writer
 namespace Rosu
 
-def parseWSched : List String → WSched
+def wrParseSched : List String → WSched
   | [] => []
   | t :: ts =>
     let e : WEv :=
@@ -15,26 +15,26 @@ def parseWSched : List String → WSched
       else if t == "z" then .zero
       else if t.startsWith "f" then .fail (IoKind.ofTag (t.drop 1).toString)
       else .accept (t.drop 1).toString.toNat!
-    e :: parseWSched ts
+    e :: wrParseSched ts
 
-def fmtW (r : WResult) : String :=
+def wrFmt (r : WResult) : String :=
   (match r.result with
     | .ok () => "ok"
     | .error k => "err " ++ k.tag) ++
   " flushed=" ++ (if r.flushed then "1" else "0") ++ " written=" ++ hexBytes r.written
 
-def splitSlash : List String → List String × List String
+def wrSplitSlash : List String → List String × List String
   | [] => ([], [])
   | t :: ts =>
     if t == "/" then ([], ts)
-    else let (a, b) := splitSlash ts; (t :: a, b)
+    else let (a, b) := wrSplitSlash ts; (t :: a, b)
 
 def dispatchWriter (toks : List String) : Option String :=
   match toks with
   | "writesched" :: fl :: rest =>
-    let (calls, evs) := splitSlash rest
+    let (calls, evs) := wrSplitSlash rest
     let flush : Except IoKind Unit := if fl == "ok" then .ok () else .error (IoKind.ofTag fl)
-    some (fmtW (encodeTo (parseWSched evs) flush (calls.map unhex)))
+    some (wrFmt (encodeTo (wrParseSched evs) flush (calls.map unhex)))
   | _ => none
 
 end Rosu
